@@ -497,6 +497,8 @@ def _run_one(case, acc, ops=None):
 
 
 def run_shard(spec):
+    import hal.simulation as hs
+    hs.pauseTiming()          # simulated time stands still unless a case moves it (as in a unit-test / simulator session)
     rng = random.Random(spec["seed"])
     acc = Acc()
     for i in range(spec["n"]):
@@ -519,6 +521,8 @@ def run_shard(spec):
 
 
 def replay(pid, case):
+    import hal.simulation as hs
+    hs.pauseTiming()
     acc = Acc()
     d, _ = _run_one(case, acc, ops=case["ops"])
     if d.violation is None and "hist" in case:
